@@ -276,6 +276,7 @@ def check(P, R):
              f'the reader is chosen by the chunked flag, so a chunked request that also declares a small Content-Length is read without any limit',
              why='a body larger than the maximum is rejected with 413 under both framings', key_extra='limit-arg')
 
+    check_config_by_presence(P, R, 'C13.b', 'a configured limit of 0 (accept no body) is a limit, not "unset": any body within the limit is accepted, any body over it refused')
     # a body that moves to disk is the same body for the multipart layer: the pass that spills still feeds the scanner
     from . import c06
     c06.check_scanner_fed(P, R, 'C13.c', why='a body larger than the in-memory threshold is kept on disk with identical content (its parts included)')
@@ -470,3 +471,23 @@ def check_get_body_string(P, R, rid):
     for r in [n for n in walk_shallow(fs.node) if isinstance(n, ast.Raise)]:
         ok = isinstance(r.exc, ast.Call) and dotted(r.exc.func) == 'self._raise' and r.exc.args and 'BodySizeError' in src(r.exc.args[0])
         R.ob(rid, fs, r, ok, detail='' if ok else 'the refusal is not raised through self._raise(BodySizeError(), ...) -> not a 413')
+
+
+def check_config_by_presence(P, R, rid, why):
+    """the configuration objects (DefaultConfig, RequestConfig) take every value the caller supplied - by presence of the key, not by its truth value:
+    max_body_size=0, max_memfile_size=0, catchall=False, debug=False are settings"""
+    gf = P.func('ombott.common_helpers:SimpleConfig.get_from')
+    srcp = gf.params[1] if len(gf.params) > 1 else 'src_config'
+    sites = [c for c in ast.walk(gf.node) if isinstance(c, ast.Call) and call_attr(c) == 'get' and isinstance(c.func.value, ast.Name) and c.func.value.id == srcp]
+    if not sites:
+        R.undecided(rid, gf, gf.node, 'SimpleConfig.get_from', 'no lookup of the supplied configuration by key')
+        return
+    for c in sites:
+        par = getattr(c, '_p', None)
+        by_truth = isinstance(par, ast.BoolOp) and isinstance(par.op, ast.Or) and par.values[0] is c
+        by_truth = by_truth or (isinstance(par, ast.IfExp) and any(x is c for x in ast.walk(par.test)))
+        has_default = len(c.args) >= 2
+        ok = has_default and not by_truth
+        R.ob(rid, gf, c, ok, text=f'`{short(c, 60)}`: a supplied value is used whenever the key is present', detail='' if ok else
+             f'the supplied value is taken by its truth value (`{short(par, 70) if by_truth else short(c, 60)}`): a setting that is falsy on purpose - max_body_size=0, '
+             f'max_memfile_size=0, debug=False - is replaced by the default (no limit at all for max_body_size)', why=why, key_extra='config-presence')
